@@ -86,7 +86,26 @@ func (c02) local(c *fw.Case) {
 		}
 	}
 	m["$schema"] = d7uri(c)
-	mc := &modelCase{draft: refmodel.D7, rootText: gen.Text(m)}
+	baseURI := ""
+	if r.IntN(4) == 0 {
+		// a base-URI $id spelled with an empty fragment (recommended by draft-07 for root schemas), with references that depend on it
+		m["$id"] = "http://example.com/schemas/root.json#"
+		defsKW := "definitions"
+		defs, _ := m[defsKW].(map[string]any)
+		if defs == nil {
+			defs = map[string]any{}
+			m[defsKW] = defs
+		}
+		defs["zzself"] = map[string]any{"$ref": gen.Pick(r, []string{"http://example.com/schemas/root.json", "root.json", "http://example.com/schemas/root.json#/definitions/zzleaf", "root.json#/definitions/zzleaf"})}
+		defs["zzleaf"] = map[string]any{"type": gen.Pick(r, gen.TypeNames)}
+		defs["zzemb"] = map[string]any{"$id": "sub/emb.json#", "definitions": map[string]any{"x": map[string]any{"type": "integer"}}, "properties": map[string]any{"a": map[string]any{"$ref": gen.Pick(r, []string{"emb.json#/definitions/x", "#/definitions/x", "http://example.com/schemas/sub/emb.json#/definitions/x"})}}}
+		if props, ok := m["properties"].(map[string]any); ok {
+			props["a"] = map[string]any{"$ref": gen.Pick(r, []string{"#/definitions/zzleaf", "sub/emb.json", "#/definitions/zzself"})}
+		} else if _, has := m["$ref"]; !has {
+			m["properties"] = map[string]any{"a": map[string]any{"$ref": gen.Pick(r, []string{"#/definitions/zzleaf", "sub/emb.json", "#/definitions/zzself"})}}
+		}
+	}
+	mc := &modelCase{draft: refmodel.D7, rootText: gen.Text(m), baseURI: baseURI}
 	mod, rs, _, ok := mc.build(c)
 	if !ok {
 		return
